@@ -166,12 +166,12 @@ func init() {
 		"internal/bytealg.LastIndexByteString": func(fr *frame, args []value) value {
 			return lastIndexByteCells(cellsOf(args[0]), args[1])
 		},
-		"(*sync.Mutex).Lock":      func(fr *frame, args []value) value { return nil },
-		"(*sync.Mutex).Unlock":    func(fr *frame, args []value) value { return nil },
-		"(*sync.RWMutex).Lock":    func(fr *frame, args []value) value { return nil },
-		"(*sync.RWMutex).Unlock":  func(fr *frame, args []value) value { return nil },
-		"(*sync.RWMutex).RLock":   func(fr *frame, args []value) value { return nil },
-		"(*sync.RWMutex).RUnlock": func(fr *frame, args []value) value { return nil },
+		"(*sync.Mutex).Lock":      func(fr *frame, args []value) value { ex.lockOp(args[0].(*value), "Lock"); return nil },
+		"(*sync.Mutex).Unlock":    func(fr *frame, args []value) value { ex.lockOp(args[0].(*value), "Unlock"); return nil },
+		"(*sync.RWMutex).Lock":    func(fr *frame, args []value) value { ex.lockOp(args[0].(*value), "Lock"); return nil },
+		"(*sync.RWMutex).Unlock":  func(fr *frame, args []value) value { ex.lockOp(args[0].(*value), "Unlock"); return nil },
+		"(*sync.RWMutex).RLock":   func(fr *frame, args []value) value { ex.lockOp(args[0].(*value), "RLock"); return nil },
+		"(*sync.RWMutex).RUnlock": func(fr *frame, args []value) value { ex.lockOp(args[0].(*value), "RUnlock"); return nil },
 		"fmt.Fprintf": func(fr *frame, args []value) value {
 			str := symFmt(args[1].(string), args[2].([]value), fr)
 			w := args[0].(iface)
